@@ -16,7 +16,7 @@ import (
 
 //verif:include ../dnsdata/rdb/zz_verif_model.go
 //verif:include ../db/zz_verif_world.go
-//verif:harness H12_seq property=C12 native=no quick=h=2,lru=1,layout=2,names=3;h=2,lru=2,layout=0,names=2 thorough=h=2,lru=1,layout=1,names=5;h=3,lru=2,layout=2,names=2;h=3,lru=1,layout=0,names=2
+//verif:harness H12_seq property=C12 native=no quick=h=2,lru=1,layout=2,names=3;h=2,lru=2,layout=0,names=2;h=3,lru=2,layout=1,names=1 thorough=h=2,lru=1,layout=1,names=5;h=3,lru=2,layout=2,names=2;h=3,lru=1,layout=0,names=2
 //verif:subst H12_seq time.Now github.com/facebookincubator/dns/dnsrocks/dnsserver.verifNow
 
 var verifClockSec int64 = 1_700_000_000
@@ -39,7 +39,7 @@ func verifSameRRs(a, b []dns.RR, tag string) {
 func verifSameResponse(a, b *dns.Msg, tag string) {
 	nd.Assert(a.Rcode == b.Rcode, tag+":rcode")
 	nd.Assert(a.Authoritative == b.Authoritative && a.Truncated == b.Truncated && a.Response == b.Response, tag+":flags")
-	nd.Assert(a.Id == b.Id && a.Opcode == b.Opcode && a.RecursionDesired == b.RecursionDesired, tag+":header-echo")
+	nd.Assert(a.Id == b.Id && a.Opcode == b.Opcode && a.RecursionDesired == b.RecursionDesired && a.CheckingDisabled == b.CheckingDisabled, tag+":header-echo")
 	nd.Assert(len(a.Question) == len(b.Question), tag+":question-count")
 	for i := range a.Question {
 		nd.Assert(a.Question[i] == b.Question[i], tag+":question")
@@ -81,10 +81,12 @@ func H12_seq() {
 		k := nd.Choice(2)
 		remote := verifClientIPs[2*k] // a client mapped to L1 or an unmapped one
 		id := nd.Uint16()
+		rd := nd.Bool() // RD and CD bits differ from query to query
 		build := func() *dns.Msg {
 			m := new(dns.Msg)
 			m.Id = id
-			m.RecursionDesired = step%2 == 0
+			m.RecursionDesired = rd
+			m.CheckingDisabled = !rd
 			m.Question = []dns.Question{{Name: name, Qtype: qtype, Qclass: dns.ClassINET}}
 			return m
 		}
